@@ -229,6 +229,48 @@ def observe_loads(log):
         rid.RunId.loaded_data_point = orig
 
 
+class _FlushRecorder(object):
+    def __init__(self, f, log):
+        self._f = f
+        self._log = log
+        self._n = 0
+
+    def write(self, s):
+        self._n += len(s)
+        return self._f.write(s)
+
+    def flush(self):
+        self._log.append(self._n)
+        return self._f.flush()
+
+    def __getattr__(self, k):
+        return getattr(self._f, k)
+
+
+@contextlib.contextmanager
+def observe_flushes(data_path, log):
+    """log gets the number of characters written to the data file (opened for appending, as seen
+    from rebench.persistence) at each flush"""
+    from rebench import persistence as P
+    had = 'open' in P.__dict__
+    saved = P.__dict__.get('open')
+    target = os.path.abspath(data_path)
+
+    def traced_open(path, mode='r', *a, **kw):
+        f = open(path, mode, *a, **kw)
+        if isinstance(path, str) and os.path.abspath(path) == target and 'a' in mode:
+            return _FlushRecorder(f, log)
+        return f
+    P.open = traced_open
+    try:
+        yield log
+    finally:
+        if had:
+            P.open = saved
+        else:
+            del P.open
+
+
 class Acc(object):
     """collects what a worker found; merged into the Check by `merge_into`"""
 
